@@ -107,6 +107,11 @@ def check_index(ix, model, what, auto=False):
             need(not isinstance(e, Raised) and eq(canon(e), cm[i]), 'iloc', 'iloc[%d] = %r expected %r' % (i, e, lab))
         else:
             need(not isinstance(e, Raised) and eq(canon(tuple(e)), cm[i]), 'iloc', 'iloc[%d] = %r expected %r' % (i, e, lab))
+    if depth > 1 and n:
+        # a key with more components than the depth, and a proper prefix of a label, are not labels
+        for bad, why in ((tuple(own[0]) + (tuple(own[0])[-1],), 'longer than the depth'), (tuple(own[0])[:-1], 'a proper prefix of a label')):
+            c = lib(lambda: bad in ix)
+            need(not isinstance(c, Raised) and not bool(c), 'membership', 'key %r (%s) reported as member (%r)' % (bad, why, c))
     for vv in range(2):
         a = absent_for(model, depth, vv, date=isinstance(ix, sf.IndexDate), auto=auto)
         if a is None:
@@ -231,7 +236,7 @@ def construct(b):
     return cls(np.array(labels))
 
 
-DERIVS = ('iloc', 'drop', 'roll', 'sort', 'relabel', 'union', 'intersection', 'difference', 'level_add', 'level_drop',
+DERIVS = ('iloc', 'drop', 'roll', 'sort', 'relabel', 'union', 'intersection', 'difference', 'level_add', 'level_drop', 'level_drop_inner',
           'flat', 'astype', 'copy', 'togo', 'tostatic', 'pickle', 'rename', 'append', 'append_dup', 'extend', 'loc_list')
 
 
@@ -387,6 +392,16 @@ def _check(case):
             if len({repr(canon(x)) for x in new_model}) != len(new_model) or (depth > 2 and not gen.is_tree_order(new_model)):
                 expect_err = True
             r = lib(lambda: ix.level_drop(1))
+        elif d == 'level_drop_inner':
+            if depth == 1:
+                continue
+            # removing the innermost depth: the distinct prefixes in order of first appearance (a tree keeps them adjacent)
+            new_model = []
+            for m in model:
+                pre = m[:-1] if depth > 2 else m[0]
+                if not new_model or not eq(canon(new_model[-1]), canon(pre)):
+                    new_model.append(pre)
+            r = lib(lambda: ix.level_drop(-1))
         elif d == 'flat':
             if depth == 1:
                 continue
@@ -521,16 +536,18 @@ GO_ROUTES = ('static_ctor', 'go_ctor', 'rename', 'copy', 'deepcopy', 'pickle', '
 
 @st.composite
 def go_cases(draw):
-    kind = draw(st.sampled_from(['int', 'str', 'date', 'mixed', 'ih', 'ih', 'ih']))
+    kind = draw(st.sampled_from(['int', 'str', 'date', 'mixed', 'ih', 'ih', 'ih', 'auto']))
     if kind == 'ih':
         n = draw(st.integers(1, 6))
         labels = draw(gen.tree_labels_n(n))
+    elif kind == 'auto':
+        labels = list(range(draw(st.integers(0, 4))))
     else:
         n = draw(st.integers(0, 5))
         labels = draw(gen.flat_labels(n, kind))
     steps = draw(st.lists(st.one_of(
         st.fixed_dictionaries({'s': st.just('read'), 'what': st.sampled_from(GO_READS)}),
-        st.fixed_dictionaries({'s': st.sampled_from(['append', 'append', 'extend']), 'v': st.integers(0, 40), 'branch': st.integers(0, 2)}),
+        st.fixed_dictionaries({'s': st.sampled_from(['append', 'append', 'extend', 'append_dup', 'extend_dup']), 'v': st.integers(0, 40), 'branch': st.integers(0, 2)}),
         st.fixed_dictionaries({'s': st.just('derive'), 'route': st.sampled_from(GO_ROUTES)}),
         st.fixed_dictionaries({'s': st.just('observe')}),
     ), min_size=2, max_size=9))
@@ -557,6 +574,9 @@ def _go_fresh(kind, model, v, branch):
         c = 'zq%d' % v
     elif kind == 'int':
         c = 7000 + v
+    elif kind == 'auto':
+        # mostly the next position (labels stay positions), sometimes a label that ends that
+        c = len(model) if (v % 4 or not all(isinstance(x, int) and x == i for i, x in enumerate(model))) else 7000 + v
     else:
         c = [7000 + v, 'zq%d' % v, (97, v), 2.25 + v][v % 4]
     return None if any(eq(canon(c), canon(x)) for x in model) else c
@@ -566,7 +586,11 @@ def check_go(case):
     del DEFERRED[:]
     kind = case['kind']
     model = list(case['labels'])
-    ix = lib(gen.build_index, {'kind': kind, 'labels': list(model)}, True)
+    if kind == 'auto':
+        # the grow-only auto-integer index a FrameGO built without column labels carries
+        ix = lib(lambda: sf.FrameGO(np.zeros((1, len(model)))).columns)
+    else:
+        ix = lib(gen.build_index, {'kind': kind, 'labels': list(model)}, True)
     if isinstance(ix, Raised):
         raise Failure('raised:%s' % ix.cls, 'construction raised %r' % ix.exc, ix.where)
     derived = []
@@ -583,12 +607,36 @@ def check_go(case):
                     'loc': lambda: ix.loc_to_iloc(list(ix)[-1] if ix.depth == 1 else tuple(list(ix)[-1])) if model else None,
                     'repr': lambda: repr(ix), 'dtype': lambda: ix.dtypes if ix.depth > 1 else ix.dtype,
                     'depth_values': lambda: ix.values_at_depth(0), 'none': lambda: None}[w]
-            r = lib(call)
+            if w in ('loc', 'contains') and model:
+                # the first read after growth may be a lookup of the newest label: asked from the model, nothing else is read first
+                last = model[-1] if kind != 'ih' else tuple(model[-1])
+                r = lib((lambda: ix.loc_to_iloc(last)) if w == 'loc' else (lambda: last in ix))
+                if isinstance(r, Raised):
+                    raise Failure('raised:%s' % r.cls, '%s of the held label %r (first read after growth: %s) raised %r' % (w, last, pending_growth, r.exc), r.where)
+                if (w == 'loc' and not (isinstance(r, (int, np.integer)) and int(r) == n - 1)) or (w == 'contains' and not bool(r)):
+                    raise Failure('bijection' if w == 'loc' else 'membership', '%s of the held label %r gave %r (expected %s)' % (w, last, r, n - 1 if w == 'loc' else True))
+            else:
+                r = lib(call)
             if isinstance(r, Raised):
                 raise Failure('raised:%s' % r.cls, 'read %s raised %r' % (w, r.exc), r.where)
             if w != 'none' and not grown:
                 read_before_growth = True
             classes.append('read:' + w)
+        elif s in ('append_dup', 'extend_dup'):
+            # growth that must be rejected, issued without observing the index first; the index must stay as it is
+            if not model or (kind == 'ih' and s == 'extend_dup'):
+                continue
+            dup = model[stp['v'] % n]
+            if s == 'append_dup':
+                r = lib(ix.append, dup)
+            else:
+                a = _go_fresh(kind, model, stp['v'], 0)
+                if a is None:
+                    continue
+                r = lib(ix.extend, [a, dup])
+            if not isinstance(r, Raised):
+                raise Failure('no-raise', '%s with the held label %r accepted' % (s, dup))
+            classes.append('go:' + s)
         elif s in ('append', 'extend'):
             if kind == 'ih' and not model:
                 continue
